@@ -91,3 +91,58 @@ pub fn run_cases(args: &[String], f: fn(&J) -> J) {
 pub fn guarded<T>(f: impl FnOnce() -> T) -> Result<T, String> {
     catch_unwind(AssertUnwindSafe(f)).map_err(panic_msg)
 }
+
+/// Trace writer for the impl -> spec drivers.  Every operation is announced in `<out>.pending`
+/// before it runs and appended to the trace after it returned; a watchdog thread ends the process
+/// (exit code 3) when one operation does not return in time.  The parent (lib/vlib.py drive_trace)
+/// turns a dead or timed-out driver into an `abort` / `hang` record for the pending operation and
+/// restarts the driver at the next case.
+pub struct TraceWriter {
+    w: std::io::BufWriter<std::fs::File>,
+    pending: String,
+    armed: std::sync::Arc<std::sync::Mutex<Option<std::time::Instant>>>,
+}
+
+impl TraceWriter {
+    pub fn open(path: &str, append: bool, op_timeout_ms: u64) -> Self {
+        let f = std::fs::OpenOptions::new()
+            .create(true)
+            .write(true)
+            .append(append)
+            .truncate(!append)
+            .open(path)
+            .expect("open trace");
+        let armed: std::sync::Arc<std::sync::Mutex<Option<std::time::Instant>>> = Default::default();
+        let a2 = armed.clone();
+        std::thread::spawn(move || loop {
+            std::thread::sleep(std::time::Duration::from_millis(50));
+            if let Some(t) = *a2.lock().unwrap() {
+                if t.elapsed().as_millis() as u64 > op_timeout_ms {
+                    std::process::exit(3);
+                }
+            }
+        });
+        TraceWriter {
+            w: std::io::BufWriter::new(f),
+            pending: format!("{path}.pending"),
+            armed,
+        }
+    }
+    pub fn begin(&mut self, case: usize, op: &J) {
+        std::fs::write(&self.pending, json!({"case": case, "op": op}).to_string()).unwrap();
+        *self.armed.lock().unwrap() = Some(std::time::Instant::now());
+    }
+    pub fn end(&mut self, rec: J) {
+        *self.armed.lock().unwrap() = None;
+        writeln!(self.w, "{rec}").unwrap();
+        self.w.flush().unwrap();
+    }
+    pub fn line(&mut self, rec: J) {
+        writeln!(self.w, "{rec}").unwrap();
+        self.w.flush().unwrap();
+    }
+    pub fn finish(&mut self) {
+        self.w.flush().unwrap();
+        let _ = std::fs::remove_file(&self.pending);
+    }
+}
